@@ -1141,9 +1141,13 @@ fc_statements = [
         buf_args=["arg_decl"],
         c_arg_decl=[
             # Argument is a pointer while std::string is a scalar.
-            # C++ compiler will convert to std::string when calling function.
             "char *{c_var}",
         ],
+        # Create the std::string explicitly.  If the function is
+        # overloaded, passing the char * lets the C++ compiler select
+        # another overload (bool, const char *).
+        cxx_local_var="scalar",
+        pre_call=["std::string {cxx_var}({c_var});"],
         f_arg_decl=[
             # Remove VALUE added by c_default
             "character(kind=C_CHAR), intent(IN) :: {c_var}(*)",
